@@ -72,8 +72,9 @@ def fig55(p=0.5, q=0.75, sym=(3, 4)):
 
 def dead_family(kind, succ_kinds, self_loop=False):
     """state 0 (P1 or chance) with successors drawn from: 'D' dead sink, 'C' dead Player-2 chain,
-    'A' alive chance (1/2), 'B' alive chance (3/4), 'F' final."""
-    idx = {"D": 1, "C": 2, "A": 3, "B": 4, "F": 5}
+    'A' alive chance (1/2), 'B' alive chance (3/4), 'F' final, 'E' Player 2 state that can move to the dead sink or
+    to the final state (value 0 although it has a path to the final state)."""
+    idx = {"D": 1, "C": 2, "A": 3, "B": 4, "F": 5, "E": 6, "T": 7}     # 'T': alive with a tiny value (1e-7)
     K = len(succ_kinds)
     if kind == P1:
         t0 = [("a%d" % i, idx[k]) for i, k in enumerate(succ_kinds)]
@@ -85,9 +86,10 @@ def dead_family(kind, succ_kinds, self_loop=False):
         t0 = [(ps[i], idx[k]) for i, k in enumerate(succ_kinds)]
         if self_loop:
             t0.append((ps[K], 0))
-    tl = [t0, [(1, 1)], [("x", 1)], [(0.5, 5), (0.5, 1)], [(0.75, 5), (0.25, 1)], [(1, 5)]]
+    tl = [t0, [(1, 1)], [("x", 1)], [(0.5, 5), (0.5, 1)], [(0.75, 5), (0.25, 1)], [(1, 5)], [("x", 1), ("y", 5)],
+          [(1e-7, 5), (1 - 1e-7, 1)]]
     return Game("dead(%s,%s%s)" % (kind[0:2] + kind[-1], "".join(succ_kinds), ",loop" if self_loop else ""),
-                [kind, PR, P2, PR, PR, PR], tl, [5], [SYM, 0, 0, SYM, SYM, 0])
+                [kind, PR, P2, PR, PR, PR, P2, PR], tl, [5], [SYM, 0, 0, SYM, SYM, 0, 0, 1])
 
 
 def cyc(back, owner=P1):
@@ -166,6 +168,8 @@ def nosol(which):
     if which == "nopath":
         return Game("nosol(nopath)", [P1, PR, PR, PR], [[("a", 1), ("b", 1)], [(1, 1)], [(0.5, 3), (0.5, 1)], [(1, 3)]], [3],
                     [SYM, 0, SYM, 0])
+    if which == "walled":     # no non-final state has a transition into the final state
+        return Game("nosol(walled)", [P1, PR, PR], [[("a", 1), ("b", 1)], [(1, 1)], [(1, 2)]], [2], [SYM, 0, 0])
     # initial chance state whose every branch is dead
     return Game("nosol(chance)", [PR, PR, P1, PR], [[(0.5, 1), (0.5, 1)], [(1, 1)], [("a", 3)], [(1, 3)]], [3], [SYM, 0, SYM, 0])
 
@@ -175,6 +179,27 @@ def unreach(which):
     core = [[("a", 1), ("b", 2)], [(0.5, 3), (0.5, 4)], [(0.25, 3), (0.75, 4)], [(1, 3)], [(1, 4)]]
     extra = {"p1": (P1, [("u", 1), ("v", 4)]), "p2": (P2, [("u", 1), ("v", 4)]), "pr": (PR, [(0.5, 1), (0.5, 4)])}[which]
     return Game("unreach(%s)" % which, [P1, PR, PR, PR, PR, extra[0]], core + [extra[1]], [3], [0, SYM, SYM, 0, 0, SYM])
+
+
+def rew_ties(owner, r=1):
+    """an exact reward tie reached through different floating-point sums: 0.7r + 0.2r + 0.1r versus r"""
+    return Game("rew_ties(%s,%s)" % (owner[-1], r), [owner, PR, PR, PR, PR],
+                [[("direct", 2), ("split", 1), ("low", 3)], [(0.7, 2), (0.2, 2), (0.1, 2)], [(1, 4)], [(1, 4)], [(1, 4)]], [4],
+                [0, 0, r, r / 2 if owner == P1 else 2 * r, 0])
+
+
+def slow_rew(p=0.9997):
+    """a stopping game that is absorbed slowly: rewarded self-loop of probability p (value 1/(1-p))"""
+    return Game("slow_rew(%s)" % p, [P1, PR, PR, PR], [[("a", 1), ("b", 2)], [(p, 1), (1 - p, 3)], [(0.5, 3), (0.5, 2)], [(1, 3)]], [3],
+                [0, 1, 1, 0])
+
+
+def regroup(which):
+    """two games with the same state count, final states and left-to-right successor sequence (1,2,3,2,3) but the
+    transitions grouped differently among the states"""
+    if which == "x":
+        return Game("regroup(x)", [P1, PR, PR, PR], [[("a", 1), ("b", 2)], [(1, 3)], [(1, 2)], [(1, 3)]], [3], [0, 2, 0, 0])
+    return Game("regroup(z)", [PR, PR, PR, PR], [[(1, 1)], [(1, 2)], [(0.5, 3), (0.5, 2)], [(1, 3)]], [3], [0, 2, 1, 0])
 
 
 def slow_chain():
@@ -267,7 +292,7 @@ def chain_values(n, trans, finals, target="reach", rewards=None):
 
 
 def _strategies(players, tl, who):
-    idx = [s for s, p in enumerate(players) if p == who]
+    idx = [s for s, p in enumerate(players) if p == who and tl[s]]
     for combo in itertools.product(*[range(len(tl[s])) for s in idx]):
         yield dict(zip(idx, combo))
 
@@ -314,6 +339,63 @@ def max_steps(players, tl):
                 return None
             worst = max(worst, max(v))
     return worst
+
+
+def dec(x):
+    """the rational a probability literal denotes (0.1 -> 1/10), for tie oracles"""
+    return Fraction(str(x)) if isinstance(x, float) else Fraction(x)
+
+
+def exact_rewards(players, ctl, rewards, conv=Fraction):
+    """max over Player 1 / min over Player 2 memoryless strategies of the exact expected total reward of the
+    (conditioned, stopping) game ctl; conv maps probability literals to rationals"""
+    n = len(players)
+
+    def chain(trans):
+        absorbing = {s for s in range(n) if not trans[s] or all(t == s for _, t in trans[s])}
+        unk = [s for s in range(n) if s not in absorbing]
+        pos = {s: i for i, s in enumerate(unk)}
+        m = len(unk)
+        A = [[Fraction(0)] * (m + 1) for _ in range(m)]
+        for s in unk:
+            i = pos[s]
+            A[i][i] += 1
+            A[i][m] += conv(rewards[s])
+            for p, t in trans[s]:
+                if t in pos:
+                    A[i][pos[t]] -= p
+        for c in range(m):
+            piv = next((r for r in range(c, m) if A[r][c] != 0), None)
+            if piv is None:
+                raise ValueError("not a stopping chain")
+            A[c], A[piv] = A[piv], A[c]
+            inv = 1 / A[c][c]
+            A[c] = [x * inv for x in A[c]]
+            for r in range(m):
+                if r != c and A[r][c] != 0:
+                    f = A[r][c]
+                    A[r] = [x - f * y for x, y in zip(A[r], A[c])]
+        out = [Fraction(0)] * n
+        for s in unk:
+            out[s] = A[pos[s]][m]
+        return out
+    best = None
+    for s1 in _strategies(players, ctl, P1):
+        worst = None
+        for s2 in _strategies(players, ctl, P2):
+            trans = []
+            for s in range(n):
+                if not ctl[s]:
+                    trans.append([])
+                elif players[s] == PR:
+                    trans.append([(conv(p), t) for p, t in ctl[s]])
+                else:
+                    k = (s1 if players[s] == P1 else s2)[s]
+                    trans.append([(Fraction(1), ctl[s][k][1])])
+            v = chain(trans)
+            worst = v if worst is None else [min(a, b) for a, b in zip(worst, v)]
+        best = worst if best is None else [max(a, b) for a, b in zip(best, worst)]
+    return best
 
 
 def has_path(tl, finals):
